@@ -435,4 +435,391 @@ theorem observerFallible_complete (db : DB) {o c : Nat} (ho : o < db.n)
   refine List.mem_filterMap.mpr ⟨o, ?_, by simp [hc']⟩
   simp [DB.observers, List.mem_filter, List.mem_range, ho, hk]
 
+
+/-! ## Rule: two routes that can match the same request -/
+
+/-- does a route template match a request path (given as its segments)? A literal matches itself, a
+    parameter any one segment, a catch-all whatever is left (at least one segment). -/
+def matchPath : List Seg → List Nat → Bool
+  | [], [] => true
+  | .lit a :: p, s :: r => a == s && matchPath p r
+  | .param _ :: p, _ :: r => matchPath p r
+  | .catchAll _ :: _, _ :: _ => true
+  | _, _ => false
+
+/-- some request path is matched by both templates -/
+def Overlap (p q : List Seg) : Prop := ∃ req, matchPath p req = true ∧ matchPath q req = true
+
+/-- two routes that can match the same request: a common method and overlapping templates -/
+def RoutesOverlap (r1 r2 : Route) : Prop :=
+  (∃ m, r1.accepts m = true ∧ r2.accepts m = true) ∧ Overlap r1.path r2.path
+
+/-- a request matched by a template -/
+def inst : List Seg → List Nat
+  | [] => []
+  | .lit a :: p => a :: inst p
+  | .param _ :: p => 0 :: inst p
+  | .catchAll _ :: _ => [0]
+
+theorem matchPath_inst (p : List Seg) : matchPath p (inst p) = true := by
+  induction p with
+  | nil => rfl
+  | cons a p ih => cases a <;> simp [inst, matchPath, ih]
+
+/-- a request matched by both of two templates of conflicting shape -/
+def overlapWitness : List Seg → List Seg → List Nat
+  | .lit a :: p, .lit _ :: q => a :: overlapWitness p q
+  | .param _ :: p, .param _ :: q => 0 :: overlapWitness p q
+  | .catchAll _ :: _, .catchAll _ :: _ => [0]
+  | .catchAll _ :: _, .param _ :: q => 0 :: inst q
+  | .param _ :: p, .catchAll _ :: _ => 0 :: inst p
+  | _, _ => []
+
+/-- templates that matchit refuses to hold together (equal specificity) really do overlap. -/
+theorem shapeConflict_overlap : ∀ (p q : List Seg), shapeConflict p q = true → Overlap p q := by
+  intro p q h
+  refine ⟨overlapWitness p q, ?_⟩
+  induction p generalizing q with
+  | nil =>
+    cases q with
+    | nil => simp [overlapWitness, matchPath]
+    | cons b q => simp [shapeConflict] at h
+  | cons a p ih =>
+    cases q with
+    | nil => cases a <;> simp [shapeConflict] at h
+    | cons b q =>
+      cases a <;> cases b <;> simp [shapeConflict] at h <;>
+        simp [overlapWitness, matchPath, matchPath_inst]
+      · obtain ⟨e, h⟩ := h
+        subst e
+        simpa using ih q h
+      · exact ih q h
+
+theorem mem_paths {db : DB} {r : Route} (hr : r ∈ db.routes) : r.path ∈ db.paths := by
+  unfold DB.paths
+  rw [List.mem_eraseDups]
+  exact List.mem_map.mpr ⟨r, hr, rfl⟩
+
+/-- **same template, common method** (same method + path; overlapping method sets; ANY vs specific;
+    non-standard methods included after the fix) ⇒ a method conflict is reported. -/
+theorem methodConflict_complete (db : DB) {k1 k2 m : Nat} {r1 r2 : Route} (hlt : k1 < k2)
+    (h1 : db.routes[k1]? = some r1) (h2 : db.routes[k2]? = some r2) (hp : r1.path = r2.path)
+    (hm1 : r1.accepts m = true) (hm2 : r2.accepts m = true) : db.methodConflicts ≠ [] := by
+  have hr1 : r1 ∈ db.routes := List.mem_of_getElem? h1
+  have hr2 : r2 ∈ db.routes := List.mem_of_getElem? h2
+  have hg1 : r1 ∈ db.group r1.path := by simp [DB.group, List.mem_filter, hr1]
+  have hg2 : r2 ∈ db.group r1.path := by simp [DB.group, List.mem_filter, hr2, hp]
+  -- a method that is examined and that both accept
+  have hex : ∃ m', m' ∈ (wellKnownMethods ++ (db.group r1.path).flatMap (·.methods)).eraseDups ∧
+      r1.accepts m' = true ∧ r2.accepts m' = true := by
+    by_cases hmM : m ∈ (wellKnownMethods ++ (db.group r1.path).flatMap (·.methods)).eraseDups
+    · exact ⟨m, hmM, hm1, hm2⟩
+    · rw [List.mem_eraseDups, List.mem_append, not_or] at hmM
+      have hany : ∀ r, r ∈ db.group r1.path → r.accepts m = true → r.any = true := by
+        intro r hr ha
+        simp only [Route.accepts, Bool.or_eq_true] at ha
+        rcases ha with ha | ha
+        · exact ha
+        · exact absurd (List.mem_flatMap.mpr ⟨r, hr, List.contains_iff_mem.mp ha⟩) hmM.2
+      refine ⟨0, ?_, ?_, ?_⟩
+      · rw [List.mem_eraseDups]; simp [wellKnownMethods]
+      · simp [Route.accepts, hany r1 hg1 hm1]
+      · simp [Route.accepts, hany r2 hg2 hm2]
+  obtain ⟨m', hm'M, ha1, ha2⟩ := hex
+  obtain ⟨kp, hkp⟩ := List.mem_iff_getElem?.mp (mem_paths hr1)
+  have hlen : ((db.group r1.path).filter (·.accepts m')).length > 1 := by
+    unfold DB.group
+    rw [List.filter_filter]
+    apply two_le_length_filter hlt h1 h2
+    · simp [ha1]
+    · simp [ha2, hp]
+  intro hnil
+  have hmem : (⟨.routeMethodConflict, kp, m'⟩ : Diag) ∈ db.methodConflicts := by
+    unfold DB.methodConflicts
+    refine List.mem_flatMap.mpr ⟨(r1.path, kp), List.mem_zipIdx_iff_getElem?.mpr hkp, ?_⟩
+    refine List.mem_filterMap.mpr ⟨m', hm'M, ?_⟩
+    simp only [hlen, if_true]
+  rw [hnil] at hmem
+  cases hmem
+
+/-- **different templates of equal specificity** (same shape once parameter names are erased, or a
+    catch-all facing a parameter/catch-all) ⇒ a path conflict is reported for the later one. -/
+theorem pathConflict_complete (db : DB) {k1 k2 : Nat} {r1 r2 : Route} (hlt : k1 < k2)
+    (h1 : db.routes[k1]? = some r1) (h2 : db.routes[k2]? = some r2) (hp : r1.path ≠ r2.path)
+    (hs : shapeConflict r1.path r2.path = true) : ⟨.routePathConflict, k2, 0⟩ ∈ db.pathConflicts := by
+  unfold DB.pathConflicts
+  refine List.mem_filterMap.mpr ⟨(r2, k2), List.mem_zipIdx_iff_getElem?.mpr h2, ?_⟩
+  have : (db.routes.take k2).any (fun r' => r'.path != r2.path && shapeConflict r'.path r2.path) = true := by
+    rw [List.any_eq_true]
+    refine ⟨r1, ?_, by simp [hp, hs]⟩
+    apply List.mem_of_getElem? (i := k1)
+    rw [List.getElem?_take, if_pos hlt, h1]
+  simp [this]
+
+/-- both kinds of conflict stop the compiler in the first stage. -/
+theorem routeConflict_stage1 (db : DB) {k1 k2 : Nat} {r1 r2 : Route} (hlt : k1 < k2)
+    (h1 : db.routes[k1]? = some r1) (h2 : db.routes[k2]? = some r2)
+    (hm : ∃ m, r1.accepts m = true ∧ r2.accepts m = true)
+    (hs : r1.path = r2.path ∨ shapeConflict r1.path r2.path = true) : db.stage1 ≠ [] := by
+  unfold DB.stage1
+  by_cases hmc : db.methodConflicts = []
+  · simp only [hmc, List.isEmpty_nil, if_true]
+    rcases hs with hs | hs
+    · obtain ⟨m, hm1, hm2⟩ := hm
+      exact absurd hmc (methodConflict_complete db hlt h1 h2 hs hm1 hm2)
+    · by_cases hp : r1.path = r2.path
+      · obtain ⟨m, hm1, hm2⟩ := hm
+        exact absurd hmc (methodConflict_complete db hlt h1 h2 hp hm1 hm2)
+      · intro hnil
+        have := pathConflict_complete db hlt h1 h2 hp hs
+        rw [hnil] at this
+        cases this
+  · have : db.methodConflicts.isEmpty = false := by
+      cases h : db.methodConflicts with
+      | nil => exact absurd h hmc
+      | cons _ _ => rfl
+    simp only [this, Bool.false_eq_true, if_false]
+    exact hmc
+
+/-- the full statement ("two routes that can match the same request are refused") for the model. -/
+def routes_statement : Prop :=
+  ∀ (db : DB) (k1 k2 : Nat) (r1 r2 : Route), k1 < k2 → db.routes[k1]? = some r1 → db.routes[k2]? = some r2 →
+    RoutesOverlap r1 r2 → db.check ≠ []
+
+/-- `GET /a/{x}` and `GET /a/b` (literals 0 = "a", 1 = "b") -/
+def witnessW2 : DB :=
+  { parent := [0], tys := [],
+    comps := [⟨.handler, 0, 0, .request, false, [], false, 0⟩, ⟨.handler, 0, 0, .request, false, [], false, 1⟩],
+    routes := [⟨0, [.lit 0, .param 0], [0], false⟩, ⟨1, [.lit 0, .lit 1], [0], false⟩], pparams := [] }
+
+/-- **[finding, known]** the statement is false for the faithful model: templates of different
+    specificity are accepted although the request `/a/b` matches both (matchit ranks them). -/
+theorem routes_statement_false : ¬ routes_statement := by
+  intro h
+  have := h witnessW2 0 1 ⟨0, [.lit 0, .param 0], [0], false⟩ ⟨1, [.lit 0, .lit 1], [0], false⟩
+    (by decide) (by decide) (by decide) ⟨⟨0, by decide, by decide⟩, ⟨[0, 1], by decide, by decide⟩⟩
+  exact this (by decide)
+
+/-- the part of the statement that holds: overlaps of equal specificity are refused. -/
+theorem routes_partial (db : DB) {k1 k2 : Nat} {r1 r2 : Route} (hlt : k1 < k2)
+    (h1 : db.routes[k1]? = some r1) (h2 : db.routes[k2]? = some r2)
+    (hm : ∃ m, r1.accepts m = true ∧ r2.accepts m = true)
+    (hs : r1.path = r2.path ∨ shapeConflict r1.path r2.path = true) :
+    RoutesOverlap r1 r2 ∧ db.stage1 ≠ [] := by
+  refine ⟨⟨hm, ?_⟩, routeConflict_stage1 db hlt h1 h2 hm hs⟩
+  rcases hs with hs | hs
+  · exact ⟨inst r1.path, matchPath_inst _, by rw [← hs]; exact matchPath_inst _⟩
+  · exact shapeConflict_overlap _ _ hs
+
+/-- before the fix, `QUERY /x` registered twice (method 9 = the first non-standard one) went through. -/
+def witnessW3 : DB :=
+  { parent := [0], tys := [],
+    comps := [⟨.handler, 0, 0, .request, false, [], false, 0⟩, ⟨.handler, 0, 0, .request, false, [], false, 1⟩],
+    routes := [⟨0, [.lit 0], [9], false⟩, ⟨1, [.lit 0], [9], false⟩], pparams := [] }
+
+theorem methodConflictsStd_incomplete :
+    witnessW3.methodConflictsStd = [] ∧ witnessW3.methodConflicts = [⟨.routeMethodConflict, 0, 9⟩] := by
+  decide
+
+
+/-! ## Rule: a path-parameter struct field that is not in the route template -/
+
+/-- **path parameters** (after the fix: every `PathParams<T>` the handler needs, at any depth): a
+    field of `T` that names no parameter of the route template ⇒ reported for that route. -/
+theorem pathParams_complete (db : DB) {k c f : Nat} {r : Route} {pp : PathParams}
+    (hr : db.routes[k]? = some r) (hh : r.comp < db.n) (hpp : pp ∈ db.pparams)
+    (hc : db.Needs r.comp c) (hk : (db.comp c).kind = .ctor) (ho : (db.comp c).out = pp.ty)
+    (hf : f ∈ pp.fields) (hnot : f ∉ paramNames r.path) :
+    ⟨.pathParam, k, pp.ty⟩ ∈ db.pathParams := by
+  unfold DB.pathParams
+  refine List.mem_flatMap.mpr ⟨(r, k), List.mem_zipIdx_iff_getElem?.mpr hr, ?_⟩
+  refine List.mem_filterMap.mpr ⟨pp, hpp, ?_⟩
+  have hmem : c ∈ closure db.deps db.n [r.comp] :=
+    closure_complete db.deps db.n [r.comp] (by simp) hh hc
+  have h1 : (closure db.deps db.n [r.comp]).any
+      (fun c => decide ((db.comp c).kind = .ctor) && decide ((db.comp c).out = pp.ty)) = true := by
+    rw [List.any_eq_true]; exact ⟨c, hmem, by simp [hk, ho]⟩
+  simp [h1]
+  exact ⟨f, hf, hnot⟩
+
+/-! ## Rejected, never compiled -/
+
+theorem check_ne_nil_of_stage (db : DB)
+    (h : db.stage1 ≠ [] ∨ db.stage2 ≠ [] ∨ db.stage3 ≠ [] ∨ db.stage4 ≠ []) : db.check ≠ [] := by
+  have e : ∀ l : List Diag, l ≠ [] → l.isEmpty = false := by
+    intro l hl; cases l with
+    | nil => exact absurd rfl hl
+    | cons _ _ => rfl
+  unfold DB.check
+  by_cases h1 : db.stage1 = []
+  · by_cases h2 : db.stage2 = []
+    · by_cases h3 : db.stage3 = []
+      · have h4 : db.stage4 ≠ [] := by
+          rcases h with h | h | h | h
+          · exact absurd h1 h
+          · exact absurd h2 h
+          · exact absurd h3 h
+          · exact h
+        simp [h1, h2, h3, h4]
+      · simp [h1, h2, e _ h3, h3]
+    · simp [h1, e _ h2, h2]
+  · simp [e _ h1, h1]
+
+theorem ne_nil_of_mem {α} {l : List α} {a : α} (h : a ∈ l) : l ≠ [] := by
+  intro e; rw [e] at h; cases h
+
+/-- The documented rules, as violations of a component database: one constructor per rule of the
+    property, each at any depth of the dependency graph (`Reachable`, `Needs`, `ThroughTransients`,
+    `ObsNeeds`) and any nesting level (all lookups go through the scope tree). -/
+inductive Violation (db : DB) : Prop
+  /-- an injected type with no constructor in scope -/
+  | missing {c k : Nat} {x : Inp} : db.Reachable c → (db.comp c).ins[k]? = some x →
+      db.lookup (db.comp c).scope x.ty = none → Violation db
+  /-- a dependency cycle -/
+  | cycle {c : Nat} : db.Reachable c → PathS db.deps c c → Violation db
+  /-- a singleton that depends on a request-scoped type, directly or through transient constructors -/
+  | singletonDep {s i r : Nat} : s < db.n → (db.comp s).life = .singleton → (db.comp s).kind = .ctor →
+      db.ThroughTransients s i → r ∈ db.deps i → (db.comp r).life = .request → Violation db
+  /-- a singleton with constructors registered in two different blueprints -/
+  | singletonTwice {t s1 s2 c1 c2 : Nat} : t < db.tys.length → s1 ∈ db.scopes → s2 ∈ db.scopes → s1 ≠ s2 →
+      db.ctorIn s1 t = some c1 → (db.comp c1).life = .singleton →
+      db.ctorIn s2 t = some c2 → (db.comp c2).life = .singleton → Violation db
+  /-- a singleton needed at request time that is not `Send` or not `Sync` -/
+  | notSendSync {i c : Nat} : db.Reachable i → ¬ ((db.comp i).kind = .ctor ∧ (db.comp i).life = .singleton) →
+      c ∈ db.deps i → (db.comp c).life = .singleton →
+      ((db.ty (db.comp c).out).send = false ∨ (db.ty (db.comp c).out).sync = false) → Violation db
+  /-- a singleton taken by value at request time without being `Copy` or clone-if-necessary -/
+  | singletonByValue {i k c : Nat} {x : Inp} : db.Reachable i →
+      ¬ ((db.comp i).kind = .ctor ∧ (db.comp i).life = .singleton) →
+      (db.comp i).ins[k]? = some x → x.mode = .val → db.lookup (db.comp i).scope x.ty = some c →
+      (db.comp c).life = .singleton → (db.ty x.ty).copy = false → (db.comp c).cloneIfNec = false → Violation db
+  /-- `&mut` injection of a singleton, a transient, or a clone-if-necessary request-scoped value -/
+  | mutInjection {c k j : Nat} {x : Inp} : db.Reachable c → (db.comp c).ins[k]? = some x → x.mode = .mut →
+      db.lookup (db.comp c).scope x.ty = some j →
+      ((db.comp j).life = .singleton ∨ (db.comp j).life = .transient ∨
+        ((db.comp j).life = .request ∧ (db.comp j).cloneIfNec = true)) → Violation db
+  /-- any `&mut` input on a constructor -/
+  | mutOnConstructor {c k : Nat} {x : Inp} : c < db.n → (db.comp c).kind = .ctor →
+      (db.comp c).ins[k]? = some x → x.mode = .mut → Violation db
+  /-- clone-if-necessary on a type that is not `Clone` -/
+  | cloneNotClone {c : Nat} : c < db.n → (db.comp c).kind = .ctor → (db.comp c).cloneIfNec = true →
+      (db.ty (db.comp c).out).clone = false → Violation db
+  /-- an error observer that (transitively) needs a fallible constructor -/
+  | observerFallible {o c : Nat} : o < db.n → (db.comp o).kind = .observer → ObsNeeds db o c → c ≠ o →
+      (db.comp c).life ≠ .singleton → (db.comp c).fallible = true → Violation db
+  /-- two routes that can match the same request, with templates of equal specificity
+      (the remaining case is the known finding, `routes_statement_false`) -/
+  | routes {k1 k2 : Nat} {r1 r2 : Route} : k1 < k2 → db.routes[k1]? = some r1 → db.routes[k2]? = some r2 →
+      (∃ m, r1.accepts m = true ∧ r2.accepts m = true) →
+      (r1.path = r2.path ∨ shapeConflict r1.path r2.path = true) → Violation db
+  /-- a path-parameter struct field that is not in the route template -/
+  | pathParam {k c f : Nat} {r : Route} {pp : PathParams} : db.routes[k]? = some r → r.comp < db.n →
+      pp ∈ db.pparams → db.Needs r.comp c → (db.comp c).kind = .ctor → (db.comp c).out = pp.ty →
+      f ∈ pp.fields → f ∉ paramNames r.path → Violation db
+
+theorem stage3_of_mem {db : DB} {d : Diag}
+    (h : d ∈ db.detectMissing ∨ d ∈ db.singletonAmbiguity ∨ d ∈ db.singletonDeps ∨ d ∈ db.observerFallible ∨
+      d ∈ db.cloneNotClone) : db.stage3 ≠ [] :=
+  ne_nil_of_mem (a := d) (by simpa [DB.stage3] using h)
+
+theorem stage4_of_mem {db : DB} {d : Diag}
+    (h : d ∈ db.cycles ∨ d ∈ db.pathParams ∨ d ∈ db.threadSafety ∨ d ∈ db.singletonByValue) : db.stage4 ≠ [] :=
+  ne_nil_of_mem (a := d) (by simpa [DB.stage4] using h)
+
+/-- **soundness of detection, all rules**: a violated rule makes `App::build` report an error. -/
+theorem violation_detected (db : DB) (h : Violation db) : db.check ≠ [] := by
+  apply check_ne_nil_of_stage
+  cases h with
+  | missing hr hx hn =>
+    right; right; left
+    exact stage3_of_mem (Or.inl (missing_complete db hr hx hn))
+  | cycle hr hc =>
+    right; right; right
+    have := cycles_complete db hr hc
+    intro e; simp [DB.stage4] at e; exact this e.1
+  | singletonDep hs hl hk hch hr hrl =>
+    right; right; left
+    exact stage3_of_mem (Or.inr (Or.inr (Or.inl (singletonDeps_complete db hs hl hk hch hr hrl))))
+  | singletonTwice ht h1 h2 hne hc1 hl1 hc2 hl2 =>
+    right; right; left
+    obtain ⟨d, hd, _⟩ := singletonAmbiguity_complete db ht h1 h2 hne hc1 hl1 hc2 hl2
+    exact stage3_of_mem (Or.inr (Or.inl hd))
+  | notSendSync hi hrt hc hl hs =>
+    right; right; right
+    rcases hs with hs | hs
+    · exact stage4_of_mem (Or.inr (Or.inr (Or.inl (notSend_complete db hi hrt hc hl hs))))
+    · exact stage4_of_mem (Or.inr (Or.inr (Or.inl (notSync_complete db hi hrt hc hl hs))))
+  | singletonByValue hi hrt hx hm hc hl hcopy hcl =>
+    right; right; right
+    exact stage4_of_mem (Or.inr (Or.inr (Or.inr (singletonByValue_complete db hi hrt hx hm hc hl hcopy hcl))))
+  | mutInjection hr hx hm hj hl =>
+    right; right; left
+    rcases hl with hl | hl | ⟨hl, hc⟩
+    · exact stage3_of_mem (Or.inl (mutSingleton_complete db hr hx hm hj hl))
+    · exact stage3_of_mem (Or.inl (mutTransient_complete db hr hx hm hj hl))
+    · exact stage3_of_mem (Or.inl (mutCloneable_complete db hr hx hm hj hl hc))
+  | mutOnConstructor hc hk hx hm =>
+    right; left
+    obtain ⟨k', hk'⟩ := mutInput_complete db hc (by simp [hk, Kind.noMutInputs]) hx hm
+    exact ne_nil_of_mem (a := ⟨.mutInput, _, k'⟩) (by simpa [DB.stage2] using hk')
+  | cloneNotClone hc hk hcl hty =>
+    right; right; left
+    exact stage3_of_mem (Or.inr (Or.inr (Or.inr (Or.inr (cloneNotClone_complete db hc hk hcl hty)))))
+  | observerFallible ho hk hn hne hl hf =>
+    right; right; left
+    obtain ⟨c', hc'⟩ := observerFallible_complete db ho hk hn hne hl hf
+    exact stage3_of_mem (Or.inr (Or.inr (Or.inr (Or.inl hc'))))
+  | routes hlt h1 h2 hm hs =>
+    left; exact routeConflict_stage1 db hlt h1 h2 hm hs
+  | pathParam hr hh hpp hc hk ho hf hnot =>
+    right; right; right
+    exact stage4_of_mem (Or.inr (Or.inl (pathParams_complete db hr hh hpp hc hk ho hf hnot)))
+
+/-- **C08**: a blueprint that violates a documented rule is refused with at least one error report
+    and nothing is written — no SDK, no manifest, in update and in check mode (`b` is what the
+    compiler computed for the blueprint: its error count is the number of diagnostics of `check`). -/
+theorem c08_rejected_never_compiled (db : DB) (h : Violation db) (b : Gen.Build) (m : Gen.Mode)
+    (fs : Gen.FS) (hb : b.errors = db.check.length) :
+    (Gen.generate b m fs).exit = 1 ∧ (Gen.generate b m fs).reports ≥ 1 ∧
+    (Gen.generate b m fs).fs = fs ∧ (Gen.generate b m fs).writes = 0 := by
+  have hpos : b.errors > 0 := by
+    rw [hb]; exact List.length_pos_iff.mpr (violation_detected db h)
+  obtain ⟨h1, h2, h3, h4⟩ := Gen.reject_atomic b m fs hpos
+  exact ⟨h2, by omega, h1, h4⟩
+
+/-! ## The same rules when inputs are resolved from the route's blueprint (what `build_call_graph` does) -/
+
+/-- whatever is wrong from the point of view of a call graph's root is reported -/
+def scope_statement_dynamic : Prop := ∀ db : DB, db.dynamicCheck ≠ [] → db.check ≠ []
+
+/-- root: `c0(&T1) -> T0`, `c1() -> T1`; nested blueprint: `c1b(&T2) -> T1` (no constructor for `T2`),
+    route `h(&T0)`. -/
+def witnessW5 : DB :=
+  { parent := [0, 0], tys := [defaultTy, defaultTy, defaultTy],
+    comps := [⟨.ctor, 0, 0, .request, false, [⟨1, .ref⟩], false, 0⟩,
+              ⟨.ctor, 0, 1, .request, false, [], false, 1⟩,
+              ⟨.ctor, 1, 1, .request, false, [⟨2, .ref⟩], false, 2⟩,
+              ⟨.handler, 1, 0, .request, false, [⟨0, .ref⟩], false, 3⟩],
+    routes := [⟨3, [.lit 0], [0], false⟩], pparams := [] }
+
+/-- the same with `c1b(&T0) -> T1`: a cycle `T0 → T1 → T0` in the route's call graph only. -/
+def witnessW6 : DB :=
+  { witnessW5 with comps := [⟨.ctor, 0, 0, .request, false, [⟨1, .ref⟩], false, 0⟩,
+              ⟨.ctor, 0, 1, .request, false, [], false, 1⟩,
+              ⟨.ctor, 1, 1, .request, false, [⟨0, .ref⟩], false, 2⟩,
+              ⟨.handler, 1, 0, .request, false, [⟨0, .ref⟩], false, 3⟩] }
+
+/-- **[finding, known]** the analyses resolve the inputs of a component from the component's
+    blueprint, `build_call_graph` from the route's: a missing constructor / a cycle that exists only
+    for the latter is not reported. -/
+theorem scope_statement_dynamic_false : ¬ scope_statement_dynamic := by
+  intro h
+  exact h witnessW5 (by decide) (by decide)
+
+theorem missing_statement_dynamic_false :
+    witnessW5.check = [] ∧ witnessW5.dynamicCheck = [⟨.missing, 2, 0⟩] := by decide
+
+theorem cycle_statement_dynamic_false :
+    witnessW6.check = [] ∧ witnessW6.dynamicCheck = [⟨.cycle, 0, 2⟩] := by decide
+
 end Pxv.Rules
